@@ -135,6 +135,23 @@ _CMP = ["guarded_lt", "guarded_le", "guarded_gt", "guarded_ge"]
 
 def gen_fault_call(r):
     mode = r.randrange(0, 6)
+    if r.random() < 0.3:
+        # non-Exception signals raised by the operator, caught by `except BaseException`
+        mode = 10 + r.randrange(0, 4)
+        kk = r.randrange(0, 5)
+        if kk == 0:
+            return ["guarded_any_lt", ["T", -1, mode], r.choice([0, 5, "s"])]
+        if kk == 1:
+            return ["guarded_any_bool", ["T", -3, mode]]
+        if kk == 2:
+            return ["guarded_any_eq", ["T", -2, mode], r.choice([0, 5])]
+        if kk == 3:
+            return ["guarded_any_in", r.choice([1, "a"]), ["T", -4, mode]]
+        return ["guarded_any_lt", r.choice([0, 5]), ["T", -1, mode]]
+    if r.random() < 0.15:
+        # truthy object whose __len__ raises: the tracer's own distance computation raises
+        # after bool() succeeded (the exception reaches the SUT, which catches it)
+        return [r.choice(["guarded_bool", "guarded_not", "guarded_any_bool"]), ["T", 55, mode]]
     k = r.randrange(0, 11)
     other = r.choice([0, 5, -7, "s", 2.5])
     if k == 0:  # builtin incomparable operands -> TypeError inside _lt/_le
